@@ -2,6 +2,7 @@ package rules
 
 import (
 	"go/constant"
+	"go/token"
 	"go/types"
 	"strings"
 
@@ -91,6 +92,35 @@ func runOwnPair(p *core.Program, r *core.Report, rule string) {
 				r.Bad(rule, construct, p.InsPos(exit), "the old port is closed but its ownership record stays set: when another port is then installed in that fd (n>&m), the form's epilogue closes that other port's file although it belongs to the enclosing form; later writes to it fail with 'file already closed'")
 			}
 		}
+		// (c) a port that a redirection replaces is closed only after it was
+		// compared with the other ports of the table: after n>&m two fds use
+		// one port, and closing it under the other fd's feet loses its data
+		// ("echo foo >b 2>&1 >&2": write b: file already closed)
+		for _, c := range closes {
+			isPortEq := func(v ssa.Value) bool {
+				cmp, ok := v.(*ssa.BinOp)
+				if !ok || cmp.Op != token.EQL {
+					return false
+				}
+				isPort := func(t types.Type) bool {
+					ptr, ok := t.(*types.Pointer)
+					return ok && core.IsNamed(ptr.Elem(), pkgEval, "Port")
+				}
+				return isPort(cmp.X.Type()) && isPort(cmp.Y.Type())
+			}
+			compared := false
+			core.Instrs(fn, func(x ssa.Instruction) {
+				if b, ok := x.(*ssa.BinOp); ok && isPortEq(b) && b.Parent() == c.Parent() && blockReaches(b.Block(), c.Block()) && !dominatedByCondEdge(c.Parent(), isPortEq, true, c.Block()) {
+					compared = true
+				}
+			})
+			construct := core.FnKey(fn) + " closes the replaced port only when no other fd shares it"
+			if compared {
+				r.OK(rule, construct, p.InsPos(c), "the close is reached only past a comparison of the port with the ports of the other fds, on its unequal side")
+			} else {
+				r.Bad(rule, construct, p.InsPos(c), "the old port of the destination fd is closed without looking for another fd that uses the same port (after n>&m): `echo foo >b 2>&1 >&2` fails with 'file already closed', and a pipe shared that way loses its data")
+			}
+		}
 		// (b)
 		core.Instrs(fn, func(ins ssa.Instruction) {
 			st, ok := ins.(*ssa.Store)
@@ -110,6 +140,44 @@ func runOwnPair(p *core.Program, r *core.Report, rule string) {
 				}
 			}
 			construct := core.FnKey(fn) + " ownership record cleared only after closing through the same slot"
+			// handing the ownership over: the record of one slot is moved to
+			// the slot of another fd that uses the same port
+			// (*growAccess(fops, i) = *dstFop; *dstFop = formOwnedPort{}),
+			// where the two ports were found to be the same
+			movedFrom := func(v ssa.Value) ssa.Value {
+				if addr, isLd := core.IsLoad(v); isLd && isFopAddr(addr) {
+					return slotOf(addr)
+				}
+				return nil
+			}
+			samePortGuard := func(at ssa.Instruction) bool {
+				isPortEq := func(v ssa.Value) bool {
+					cmp, ok := v.(*ssa.BinOp)
+					if !ok || cmp.Op != token.EQL {
+						return false
+					}
+					isPort := func(t types.Type) bool {
+						ptr, ok := t.(*types.Pointer)
+						return ok && core.IsNamed(ptr.Elem(), pkgEval, "Port")
+					}
+					return isPort(cmp.X.Type()) && isPort(cmp.Y.Type())
+				}
+				return dominatedByCondEdge(at.Parent(), isPortEq, true, at.Block())
+			}
+			if src := movedFrom(st.Val); src != nil && src != slot && samePortGuard(st) {
+				r.OK(rule, construct+" (record moved to the fd that shares the port)", p.InsPos(ins), "the record is copied from another slot on the equal edge of a comparison of the two ports")
+				return
+			}
+			moved := false
+			core.Instrs(fn, func(x ssa.Instruction) {
+				if st2, ok := x.(*ssa.Store); ok && st2 != st && isFopAddr(st2.Addr) && movedFrom(st2.Val) == slot && slotOf(st2.Addr) != slot && core.Precedes(st2, st) && samePortGuard(st2) {
+					moved = true
+				}
+			})
+			if moved {
+				r.OK(rule, construct+" (after its record was moved)", p.InsPos(ins), "the record was first copied to the slot of the fd that shares the port")
+				return
+			}
 			if okPre {
 				r.OK(rule, construct, p.InsPos(ins), "a fop.close through the same slot dominates this store")
 			} else {
@@ -192,6 +260,15 @@ func bindingOf(fv *ssa.FreeVar) ssa.Value {
 
 // isLocalLiteral: the address is a local composite literal being built.
 func isLocalLiteral(addr ssa.Value) bool {
+	// an element of the temporary array behind a variadic argument list or a
+	// slice literal (append(*fops, formOwnedPort{}))
+	if ia, ok := addr.(*ssa.IndexAddr); ok {
+		if arr, ok := ia.X.(*ssa.Alloc); ok {
+			if _, isArr := arr.Type().Underlying().(*types.Pointer).Elem().Underlying().(*types.Array); isArr {
+				return true
+			}
+		}
+	}
 	a, ok := addr.(*ssa.Alloc)
 	if !ok {
 		return false
